@@ -18,6 +18,7 @@ import (
 	"go/token"
 	"os"
 	"path/filepath"
+	"regexp"
 	"sort"
 	"strconv"
 	"strings"
@@ -2317,6 +2318,20 @@ func translateUnits(repo, outdir string, units []*unit) error {
 			}
 		}
 		fmt.Fprintf(&sb, "\nDefinition translated_%s : list string := [%s].\n", u.name, strings.Join(oks, "; "))
+		// every name under which this unit's code leaves the translation
+		{
+			re := regexp.MustCompile(`call_ext ext ("(?:[^"]|"")*")%string`)
+			seen := map[string]bool{}
+			var names []string
+			for _, m := range re.FindAllStringSubmatch(sb.String(), -1) {
+				if !seen[m[1]] {
+					seen[m[1]] = true
+					names = append(names, m[1]+"%string")
+				}
+			}
+			sort.Strings(names)
+			fmt.Fprintf(&sb, "Definition ext_names_%s : list string := [%s].\n", u.name, strings.Join(names, "; "))
+		}
 		var fs []string
 		for _, n := range failed {
 			fs = append(fs, coqString(n))
